@@ -196,7 +196,7 @@ impl Node {
 //@ as: fn child_makes_stale(&self, vx_p0: i32, vx_p1: NodeRef) -> (r: bool)
 //@ cells: recomputed_at
 //@ tracing: yes
-//@ rule R8 re: `child\.changed_at\(\)\.get\(\)\s*(>=|<=|==|!=|>|<)\s*self\.recomputed_at` => `child.changed_at().get().0 \1 self.recomputed_at.0` x1
+//@ rule R8 re: `(\w+(?:\.\w+\(\))*)\.get\(\)\s*(>=|<=|==|!=|>|<)\s*self\.recomputed_at\b` => `\1.get().0 \2 self.recomputed_at.0` x1
 //@ props: C06
 //@ contract:
 //@|     requires vx_p1.wf(),
